@@ -147,6 +147,26 @@ CLAIMED["C15"] = dict(cat="proof", ref="DESIGN.md §5 C15, §12",
         "stack, forced-null production for repeated record names, lazily executed actions) is NOT modelled and is where the open findings F5a-d, F27, F28 live; "
         "F14 (numbers not rounded to the type's precision) open; model==implementation observed by correspondence on schemas outside those findings",
    tech="Lean 4 proof (writer traversal = specification JSON encoder) + specification encoder run against the implementation's text + differential read-back")
+CLAIMED["C17"] = dict(cat="proof", ref="DESIGN.md §5 C17, §12",
+   text="Lean: c17_history_independent (generic theorem: for every semantics of the calls that respects the footprints of the effect table, the result of any call after "
+        "any history equals its result in the initial store), with the table obligations c17_table_safe (whatever an entry point may read before writing it is written "
+        "by no entry point) and c17_args_intact (no parameter other than the named-schema dictionary / output stream / writer metadata is mutated, no mutable default is "
+        "mutated) discharged by evaluation on Gen/Effects.lean, which harness/gen_effects.py regenerates from /repo's source on every run (AST effect summaries closed over "
+        "the call graph). The property itself is evaluated directly: every call of generated histories (same type names with other definitions, shared parsed objects, "
+        "schema versions, appends, failing calls) is repeated first in a pristine fork and compared; module-level state and arguments are snapshotted around every call "
+        "and compared with the table.",
+   note="the table is a syntactic over-approximation: aliasing through object attributes (e.g. Writer.metadata), setattr/exec and C code are invisible to the extractor and are "
+        "covered only by the dynamic snapshots; the theorem speaks about the abstract store semantics, the tie to the interpreter is that validation",
+   tech="generated effect table (translator) + Lean 4 footprint theorem + fresh-fork differential histories with state snapshots")
+CLAIMED["C18"] = dict(cat="proof", ref="DESIGN.md §5 C18, §12",
+   text="Lean: c18_interleaving_serializable (threads that only read the shared objects reach under every schedule of their atomic steps the state they reach alone; the "
+        "store is unchanged), c18_write_sharing_is_unsafe (the hypothesis is necessary: set-then-read of a shared attribute returns the other thread's value under the "
+        "schedule A,B,A), and the obligation c18_table_threadsafe on the effect table regenerated from /repo each run (no public entry point writes a module-level state "
+        "object). Implementation: a deterministic scheduler (sys.settrace) pre-empts thread A at line events inside the package, runs thread B to completion and resumes "
+        "A, for ordered pairs of 14 operation kinds sharing parsed schemas; thorough tier adds every pre-emption point and free-running threads with a 1 µs switch interval.",
+   note="partial for the runtime: pre-emption inside C-level operations, the interpreter's real switch points, free-threaded builds and memory-model effects cannot be "
+        "expressed in the model and are only sampled; one context switch per run (A parked, B complete) is the schedule family searched deterministically; F10 fixed",
+   tech="generated effect table + Lean 4 interleaving theorem + forced-schedule search on real threads")
 PENDING = {}
 
 def main():
